@@ -50,8 +50,24 @@ def _run_one(item):
     t0 = time.time()
     try:
         res = _MOD.run_case(spec) or {}
-    except Exception:  # a crash of the harness itself is an internal error, never a VIOLATION
+    except MemoryError:
         res = {'internal_error': traceback.format_exc()}
+    except Exception as e:
+        # An exception that travelled through the library under test out of a call the driver did not expect to fail
+        # (every such call succeeds on the tree the checks were built on): the library refused or crashed on a
+        # well-formed call, which every property that speaks about the outcome of that call forbids.  A crash that never
+        # entered the library is an internal error of the harness, never a VIOLATION.
+        lib = os.path.join(os.path.realpath(env.REPO), 'metric_learn') + os.sep
+        frames = [f for f in traceback.extract_tb(e.__traceback__) if os.path.realpath(f.filename).startswith(lib)]
+        if frames:
+            f = frames[-1]
+            res = {'evals': 0, 'sigs': [], 'viol': [{
+                'site': '%s:%s' % (os.path.basename(f.filename), f.name), 'clause': 'raises',
+                'msg': 'a call that the driver expects to succeed raised %s: %s (in %s line %d)'
+                       % (type(e).__name__, str(e)[:160], os.path.basename(f.filename), f.lineno),
+                'triggers': ['uncaught_in_driver'], 'detail': {'traceback_tail': traceback.format_exc()[-1500:]}}]}
+        else:
+            res = {'internal_error': traceback.format_exc()}
     res['case_id'] = cid
     res['wall'] = time.time() - t0
     return res
